@@ -13,6 +13,8 @@
               `WFb`, `InBudgetb`, `Rb` : executable checkers (sound: `SpqProofs/Lemmas/ProgCheck.lean`).
   * second layer `OpD` / `cstepD` / `astepD`: mixed programs with DFT-space calls (`Spq.Module`) on a store
               of opaque objects, and `DftOpsSound`, the record of what the refinement theorem assumes about them.
+              `vmpDD` = `vmp_apply_dft_to_dft`, the call that consumes a `VEC_ZNX_DFT` and produces another one; the
+              abstract state carries the static tag `raw` ("last written by `vec_znx_dft` of a vector of `asz` limbs").
 -/
 import Spq.VecZnx
 import Spq.Module
@@ -260,6 +262,8 @@ inductive OpD where
   | vmpPrepare (m : MVar) (a : Var)
   /-- `vmp_apply_dft(d, a, m)` -/
   | vmp (d : DVar) (a : Var) (m : MVar)
+  /-- `vmp_apply_dft_to_dft(d, a, m)`: `a` a `VEC_ZNX_DFT` variable -/
+  | vmpDD (d a : DVar) (m : MVar)
   /-- `vec_znx_idft(d, a)`: `d` is a `VEC_ZNX_BIG` (int64 limbs, stride `nn`) living in the heap -/
   | idft (d : Var) (a : DVar)
   /-- `znx_small_single_product(d, a, b)` on limb 0 of `a`, `b`; `d` has one limb -/
@@ -273,18 +277,25 @@ structure CState (α : Type) where
   ppol : Nat → Array α
   pmat : MVar → Array α
 
-/-- abstract state; an opaque object that was never written holds `none` -/
+/-- abstract state; an opaque object that was never written holds `none`.  `raw v = some asz` is a STATIC tag (it
+    depends on the program text only): the last write to the `VEC_ZNX_DFT` variable `v` was `vec_znx_dft(v, a)` with
+    `a.size = asz` — the object is a raw transform, not a product -/
 structure AState where
   env : Env
   dvec : DVar → Option Val
   ppol : Nat → Option (Array Int)
   pmat : MVar → Option Val
+  raw : DVar → Option Nat
 
 def upd {κ β : Type} [DecidableEq κ] (f : κ → β) (k : κ) (v : β) : κ → β := fun j => if j = k then v else f j
 
 /-- the cells `off .. off + size*stride` of a variable as the flat array the C function receives -/
 def flat (h : Heap Int) (a : Var) : Array Int :=
   Array.ofFn (n := a.size * a.stride) fun j => h.mem.getD (a.off + j.val) 0
+
+/-- `sz` limbs of `nn` coefficients given by `f`, stride `nn` (the canonical flat array of an abstract vector) -/
+def flatOf (nn sz : Nat) (f : Nat → Nat → Int) : Array Int :=
+  Array.ofFn (n := sz * nn) fun j => f (j.val / nn) (j.val % nn)
 
 /-- store limb `i` = cells `i*nn .. i*nn+nn-1` of `x` to limb `i` of `d` -/
 def storeVec (nn : Nat) (h : Heap Int) (d : Var) (x : Array Int) : Heap Int :=
@@ -304,6 +315,9 @@ def cstepD (c : Module.Parts α) (nn : Nat) : OpD → CState α → CState α
       { s with pmat := upd s.pmat m (Module.vmpPrepare c (flat s.heap a) m.nrows m.ncols) }
   | .vmp d a m, s =>
       let r := Module.vmpApplyDft c d.size (flat s.heap a) a.size a.stride (s.pmat m) m.nrows m.ncols
+      { s with dvec := upd s.dvec d r }
+  | .vmpDD d a m, s =>
+      let r := Module.vmpApplyDftToDft c d.size (s.dvec a) a.size (s.pmat m) m.nrows m.ncols
       { s with dvec := upd s.dvec d r }
   | .idft d a, s => { s with heap := storeVec nn s.heap d (Module.vecIdft c d.size (s.dvec a) a.size) }
   | .smallProduct d a b, s =>
@@ -326,15 +340,23 @@ def vmpVal (nn asz : Nat) (f : Nat → Nat → Int) (M : Val) (nrows ncols : Nat
 
 def astepD (nn : Nat) : OpD → AState → AState
   | .coeff op, s => { s with env := astep nn op s.env }
-  | .dft d a, s => { s with dvec := upd s.dvec d (some (Val.mk nn d.size (ext s.env a))) }
+  | .dft d a, s =>
+      { s with dvec := upd s.dvec d (some (Val.mk nn d.size (ext s.env a))), raw := upd s.raw d (some a.size) }
   | .svpPrepare k a, s => { s with ppol := upd s.ppol k (some (Array.ofFn (n := nn) fun c => ext s.env a 0 c.val)) }
   | .svp d k a, s =>
       let sp := (s.ppol k).getD #[]
-      { s with dvec := upd s.dvec d (some (Val.mk nn d.size fun i c => polyMul nn (ext s.env a i) (fun t => sp.getD t 0) c)) }
+      { s with dvec := upd s.dvec d (some (Val.mk nn d.size fun i c => polyMul nn (ext s.env a i) (fun t => sp.getD t 0) c)),
+               raw := upd s.raw d none }
   | .vmpPrepare m a, s => { s with pmat := upd s.pmat m (some (Val.mk nn (m.nrows * m.ncols) (ext s.env a))) }
   | .vmp d a m, s =>
       let M := (s.pmat m).getD #[]
-      { s with dvec := upd s.dvec d (some (Val.mk nn d.size (vmpVal nn a.size (ext s.env a) M m.nrows m.ncols))) }
+      { s with dvec := upd s.dvec d (some (Val.mk nn d.size (vmpVal nn a.size (ext s.env a) M m.nrows m.ncols))),
+               raw := upd s.raw d none }
+  | .vmpDD d a m, s =>
+      let P := (s.dvec a).getD #[]
+      let M := (s.pmat m).getD #[]
+      let r := Val.mk nn d.size (vmpVal nn a.size (zext a.size fun i t => P.coef i t) M m.nrows m.ncols)
+      { s with dvec := upd s.dvec d (some r), raw := upd s.raw d none }
   | .idft d a, s =>
       { s with env := s.env.set d (Val.mk nn d.size (zext a.size fun i c => ((s.dvec a).getD #[]).coef i c)) }
   | .smallProduct d a b, s =>
@@ -348,27 +370,34 @@ def Agree (nn : Nat) (x : Array Int) (asz asl : Nat) (f : Nat → Nat → Int) :
     `RepV P sz d`: the `VEC_ZNX_DFT` content `d` (of `sz` limbs) represents the integer polynomial vector `P`
     (exact arithmetic: `dlimb d i = fft (fromZnx P_i)`; binary64: within the C01 error bound); likewise
     `RepS`, `RepM`.  Each `*_budget` is the precision budget of the call on the abstract operands (exact
-    arithmetic: `True`; binary64: the C01 magnitude bounds).  Each `*_exact` says that the module-level model
+    arithmetic: `True`; binary64: the C01 magnitude bounds); the budgets of the calls that produce a `VEC_ZNX_DFT`
+    receive the limb count `rsz` of the result first.  `vmp_dd_*` is `vmp_apply_dft_to_dft`: its budget also receives
+    the static tag `raw` of the vector operand, and its exactness statement may use that a tagged operand is, bit for
+    bit, `vec_znx_dft` of the exact limbs (binary64 needs it: products of products are outside the proved budget; exact
+    arithmetic does not).  Each `*_exact` says that the module-level model
     function, applied to arrays holding / representing the abstract operands inside the budget, returns an
     object representing the exact result in Z[X]/(X^nn+1) — resp. exactly the integer limbs for the two
     functions that leave DFT space. -/
 structure DftOpsSound (c : Module.Parts α) (nn : Nat) where
+  /-- the module has dimension `nn` -/
+  nn_eq : c.nn = nn
   RepV : Val → Nat → Array α → Prop
   RepS : Array Int → Array α → Prop
   RepM : Val → Nat → Nat → Array α → Prop
-  dft_budget : Nat → (Nat → Nat → Int) → Prop
+  dft_budget : Nat → Nat → (Nat → Nat → Int) → Prop
   svp_prepare_budget : (Nat → Int) → Prop
-  svp_budget : Nat → (Nat → Nat → Int) → Array Int → Prop
+  svp_budget : Nat → Nat → (Nat → Nat → Int) → Array Int → Prop
   vmp_prepare_budget : Nat → Nat → (Nat → Nat → Int) → Prop
-  vmp_budget : Nat → (Nat → Nat → Int) → Val → Nat → Nat → Prop
+  vmp_budget : Nat → Nat → (Nat → Nat → Int) → Val → Nat → Nat → Prop
+  vmp_dd_budget : Nat → Option Nat → Val → Nat → Val → Nat → Nat → Prop
   idft_budget : Val → Nat → Prop
   small_product_budget : (Nat → Int) → (Nat → Int) → Prop
   dft_exact : ∀ (x : Array Int) (asz asl rsz : Nat) (f : Nat → Nat → Int), nn ≤ asl → Agree nn x asz asl f →
-    dft_budget asz f → RepV (Val.mk nn rsz (zext asz f)) rsz (Module.vecDft c rsz x asz asl)
+    dft_budget rsz asz f → RepV (Val.mk nn rsz (zext asz f)) rsz (Module.vecDft c rsz x asz asl)
   svp_prepare_exact : ∀ (x : Array Int) (f : Nat → Int), (∀ t, t < nn → x.getD t 0 = f t) →
     svp_prepare_budget f → RepS (Array.ofFn (n := nn) fun t => f t.val) (Module.svpPrepare c x)
   svp_exact : ∀ (x : Array Int) (asz asl rsz : Nat) (f : Nat → Nat → Int) (sp : Array Int) (s : Array α),
-    nn ≤ asl → Agree nn x asz asl f → RepS sp s → svp_budget asz f sp →
+    nn ≤ asl → Agree nn x asz asl f → RepS sp s → svp_budget rsz asz f sp →
     RepV (Val.mk nn rsz fun i c => polyMul nn (zext asz f i) (fun t => sp.getD t 0) c) rsz
       (Module.svpApply c rsz s x asz asl)
   vmp_prepare_exact : ∀ (x : Array Int) (nrows ncols : Nat) (f : Nat → Nat → Int),
@@ -376,9 +405,15 @@ structure DftOpsSound (c : Module.Parts α) (nn : Nat) where
     RepM (Val.mk nn (nrows * ncols) f) nrows ncols (Module.vmpPrepare c x nrows ncols)
   vmp_exact : ∀ (x : Array Int) (asz asl rsz : Nat) (f : Nat → Nat → Int) (M : Val) (pm : Array α)
     (nrows ncols : Nat), nn ≤ asl → Agree nn x asz asl f → RepM M nrows ncols pm →
-    vmp_budget asz f M nrows ncols →
+    vmp_budget rsz asz f M nrows ncols →
     RepV (Val.mk nn rsz (vmpVal nn asz (zext asz f) M nrows ncols)) rsz
       (Module.vmpApplyDft c rsz x asz asl pm nrows ncols)
+  vmp_dd_exact : ∀ (P : Val) (asz rsz : Nat) (d : Array α) (M : Val) (pm : Array α) (nrows ncols : Nat)
+    (raw : Option Nat), RepV P asz d →
+    (∀ az, raw = some az → d = Module.vecDft c asz (flatOf nn asz fun i t => P.coef i t) (min az asz) nn) →
+    RepM M nrows ncols pm → vmp_dd_budget rsz raw P asz M nrows ncols →
+    RepV (Val.mk nn rsz (vmpVal nn asz (zext asz fun i t => P.coef i t) M nrows ncols)) rsz
+      (Module.vmpApplyDftToDft c rsz d asz pm nrows ncols)
   dft_idft_exact : ∀ (P : Val) (sz rsz : Nat) (d : Array α), RepV P sz d → idft_budget P sz →
     ∀ i t, i < rsz → t < nn →
       (Module.vecIdft c rsz d sz).getD (i * nn + t) 0 = zext sz (fun i t => P.coef i t) i t
@@ -389,24 +424,31 @@ structure DftOpsSound (c : Module.Parts α) (nn : Nat) where
 /-- well-formedness and budget of one call of a mixed program, on the abstract state -/
 def PreD {c : Module.Parts α} {nn : Nat} (S : DftOpsSound c nn) (vars : List Var) : OpD → AState → Prop
   | .coeff op, s => OpPre nn vars op s.env
-  | .dft _ a, s => a ∈ vars ∧ S.dft_budget a.size (fun i t => (s.env a).coef i t)
+  | .dft d a, s => a ∈ vars ∧ S.dft_budget d.size a.size (fun i t => (s.env a).coef i t)
   | .svpPrepare _ a, s => a ∈ vars ∧ 0 < a.size ∧ S.svp_prepare_budget (fun t => (s.env a).coef 0 t)
-  | .svp _ k a, s => a ∈ vars ∧ ∃ sp, s.ppol k = some sp ∧ S.svp_budget a.size (fun i t => (s.env a).coef i t) sp
+  | .svp d k a, s => a ∈ vars ∧ ∃ sp, s.ppol k = some sp ∧
+      S.svp_budget d.size a.size (fun i t => (s.env a).coef i t) sp
   | .vmpPrepare m a, s => a ∈ vars ∧ a.stride = nn ∧ a.size = m.nrows * m.ncols ∧
       S.vmp_prepare_budget m.nrows m.ncols (fun i t => (s.env a).coef i t)
-  | .vmp _ a m, s => a ∈ vars ∧ ∃ M, s.pmat m = some M ∧
-      S.vmp_budget a.size (fun i t => (s.env a).coef i t) M m.nrows m.ncols
+  | .vmp d a m, s => a ∈ vars ∧ ∃ M, s.pmat m = some M ∧
+      S.vmp_budget d.size a.size (fun i t => (s.env a).coef i t) M m.nrows m.ncols
+  | .vmpDD d a m, s => ∃ P M, s.dvec a = some P ∧ s.pmat m = some M ∧
+      S.vmp_dd_budget d.size (s.raw a) P a.size M m.nrows m.ncols
   | .idft d a, s => d ∈ vars ∧ ∃ P, s.dvec a = some P ∧ S.idft_budget P a.size
   | .smallProduct d a b, s => d ∈ vars ∧ a ∈ vars ∧ b ∈ vars ∧ d.size = 1 ∧ 0 < a.size ∧ 0 < b.size ∧
       S.small_product_budget (fun t => (s.env a).coef 0 t) (fun t => (s.env b).coef 0 t)
 
-/-- abstraction relation on mixed states -/
+/-- abstraction relation on mixed states; the last conjunct is the provenance of tagged `VEC_ZNX_DFT` objects: a raw
+    transform is, bit for bit, `vec_znx_dft` of its exact limbs (true of every module `c`: it only says where the
+    object came from) -/
 def RD {c : Module.Parts α} {nn : Nat} (S : DftOpsSound c nn) (hsz : Nat) (vars : List Var)
     (a : AState) (s : CState α) : Prop :=
   R nn hsz vars a.env s.heap ∧
   (∀ v P, a.dvec v = some P → S.RepV P v.size (s.dvec v)) ∧
   (∀ k sp, a.ppol k = some sp → S.RepS sp (s.ppol k)) ∧
-  (∀ m M, a.pmat m = some M → S.RepM M m.nrows m.ncols (s.pmat m))
+  (∀ m M, a.pmat m = some M → S.RepM M m.nrows m.ncols (s.pmat m)) ∧
+  (∀ v az, a.raw v = some az → ∃ P, a.dvec v = some P ∧
+    s.dvec v = Module.vecDft c v.size (flatOf nn v.size fun i t => P.coef i t) (min az v.size) nn)
 
 end Prog
 end Spq
